@@ -8,6 +8,30 @@ SHARD = 40
 CORR = ["corr_links", "corr_delivery"]
 SPEC = ["spec_fifo", "spec_selection"]
 
+# dialing side of a pool link: handshake tails, link drops, re-dials (harness sub-command `redial`)
+RD_IMPORTS = ("From Coq Require Import Uint63.\n"
+              "From Ergo Require Import Common.Base Proto.Model Proto.Cases Proto.Redial Proto.RedialCases.\n"
+              "Local Open Scope Z_scope.")
+RD_CORR = ["corr_rd_delivery", "corr_rd_loop"]
+RD_SPEC = ["spec_rd_fifo"]
+RD_MONITOR = ("order:", "dup:", "unknown:")   # lines of the Go monitor that state C13 (the others belong to C12)
+
+
+def _replay_engine(path):
+    import json
+    try:
+        return json.load(open(path)).get("engine") or ""
+    except (OSError, ValueError):
+        return ""
+
+
+def _redial(c, n, name="redial", corr=RD_CORR, env=None, replay=None):
+    args = ["redial", "-replay", replay] if replay else ["redial", "-n", str(n)]
+    out = c.harness("proto", args, timeout=900, env=env)
+    if out:
+        out["monitor"] = [m for m in (out.get("monitor") or []) if m["what"].startswith(RD_MONITOR)]
+        c.cases(name, out, RD_IMPORTS, "rcase", corr=corr, spec=RD_SPEC, premise=["premise_rd"])
+
 
 def _prepare():
     """The cases carry the raw wire bytes: give coqc a deep stack and evaluate small shards in parallel
@@ -31,21 +55,34 @@ def run(c):
     _prepare()
     c.proofs("theories/Properties/C13.v", clean=(c.tier == "thorough"))
     n = 300 if c.tier == "quick" else 3000
-    if c.replay:
+    nrd = 200 if c.tier == "quick" else 3000
+    out = None
+    if c.replay and _replay_engine(c.replay).startswith("redial"):
+        _redial(c, 1, replay=c.replay)
+    elif c.replay:
         out = c.harness("proto", ["c13", "-replay", c.replay])
     else:
         out = c.harness("proto", ["c13", "-n", str(n)], timeout=900)
     if out:
         c.cases("order", out, IMPORTS, "ocase", corr=CORR, spec=SPEC, premise=["premise_c13"])
+    if not c.replay:
+        _redial(c, nrd)
     if c.broken and not c.violations and not c.replay:
         out = c.harness("proto", ["c13", "-n", str(n * 6)], timeout=1500, env={"VERIF_SEED": str(c.seed + 7919)})
         if out:
             keep = list(c.broken)
             c.cases("order-search", out, IMPORTS, "ocase", corr=[], spec=SPEC, premise=["premise_c13"])
             c.broken = keep + [b for b in c.broken if b not in keep]
+        if not c.violations:
+            keep = list(c.broken)
+            _redial(c, nrd * 3, name="redial-search", corr=[], env={"VERIF_SEED": str(c.seed + 7919)})
+            c.broken = keep + [b for b in c.broken if b not in keep]
     c.cov["rule"] = ("distinct = different Coq case term (pairs, operations, observed links/order bytes/delivery order); "
                      "non-trivial = constant pool and at least one pair with order keeping on")
     c.assumptions += [
+        "re-dial family: the peer of the dialing side is played by the harness (raw bytes of frames a real sending connection "
+        "wrote; net.Pipe, so a successful write = bytes read by serve()); a link drop is the peer closing the socket (EOF); "
+        "the frames a sender writes while its link is down never reach the wire and are outside the statement",
         "TCP delivers the bytes of each link in order (section hypothesis of C13_fifo; the relay holds whole links back, never reorders inside one)",
         "one worker per receive queue and in-order MPSC queues (lib.QueueMPSC Lock/Unlock, C02/C03) are modelled as FIFO lists consumed by one reader",
         "one process sends sequentially; the local mailbox keeps per-sender order (C03)",
